@@ -189,10 +189,9 @@ def unit_combos(a):
 
 
 # ------------------------------------------------------------------ (c'') documents that quote the parser's own messages
-def unit_quoted(a):
+def quoted_cases():
     """an unexpected line whose text is, verbatim, the message a later line will produce (documents about parser messages):
     both faults must still be reported (de-duplication is by identical message, not by resemblance)"""
-    stats = Stats()
     prefixes = [["Feature: f"], ["Feature: f", " Scenario: s", "  Given x"], ["Feature: f", " Scenario: s", "  Given x", "   | a |"],
                 ["Feature: f", " Rule: r", "  Background:", "   Given b", "   \"\"\"", "   \"\"\""], [], ["@t"], ["Feature: f", " Scenario Outline: o", "  Given <a>", "  Examples:", "   | a |"]]
     cases = []
@@ -210,7 +209,12 @@ def unit_quoted(a):
                 lines2 = list(lines)
                 lines2[len(pre)] = "see " + msgs[0] + " above"
                 cases.append({"sub": "text", "label": "quoted-message", "text": "\n".join(lines2) + "\n"})
-    sweep(stats, cases, check_text)
+    return cases
+
+
+def unit_quoted(a):
+    stats = Stats()
+    sweep(stats, quoted_cases(), check_text)
     return stats
 
 
